@@ -334,7 +334,7 @@ class Eval:
         if 'fn' in k:
             return ('fnitem', short(k['fn']), k.get('fn_full'))
         if 'uneval' in k:
-            return ('kc', short(k['uneval']), k.get('ty'))
+            return ('kc', X.short_const(k['uneval']), k.get('ty'))
         return ('kc', k.get('text'), k.get('ty'))
 
     def place(self, env, p):
@@ -703,7 +703,7 @@ class Eval:
             n = args[1]
             if p.elem is None:
                 raise Unsupported(f'pointer arithmetic on a pointer with unknown element size: {p}')
-            l = X.lin(n) if isinstance(n, tuple) else {repr(n): Fraction(1)}
+            l = index_linear(n) if isinstance(n, tuple) else {repr(n): Fraction(1)}
             return p.add_bytes({k: v * p.elem for k, v in l.items()})
         if last in ('as_ptr', 'as_mut_ptr') and c.startswith(('core::slice', 'generic_array', 'alloc::vec')):
             a = args[0]
@@ -984,6 +984,57 @@ def strip(a):
     if isinstance(a, Vec):
         return ('vec', len(a))
     return a
+
+
+def loop_index(x):
+    """x is the index variable of a loop: ('elem', ('range', lo, hi), H)  or the counter of `.enumerate()`: returns (H, lo) or None."""
+    while isinstance(x, tuple) and x and x[0] == 'cast' and x[3] in ('IntToInt',):
+        x = x[1]
+    if isinstance(x, tuple) and len(x) == 3 and x[0] == 'elem' and isinstance(x[1], tuple) and x[1] and x[1][0] == 'range':
+        return x[2], x[1][1]
+    if isinstance(x, tuple) and len(x) == 3 and x[0] == 'fld' and str(x[2]) == '0' and isinstance(x[1], tuple) and x[1] and x[1][0] == 'elem' \
+            and isinstance(x[1][1], tuple) and x[1][1][0] == 'iter' and isinstance(x[1][1][1], tuple) and x[1][1][1][0] == 'call' and x[1][1][1][1].endswith('Iterator::enumerate'):
+        return x[1][2], ('k', 0, 'usize')
+    return None
+
+
+def mentions_loop_values(e):
+    return any(isinstance(x, tuple) and x and x[0] in ('elem', 'phi', 'phiw', 'out', 'outw', 'havoc') for x in X.walk(e)) if isinstance(e, tuple) else False
+
+
+def index_linear(n):
+    """Linear form of a pointer offset expression.  A product `j * s` of a loop index j (range element / enumerate counter) and a
+    loop-invariant s (a row stride) is kept *structured* as the atom `it#<H>*<atom of s>` = (iteration number of loop H) x s, so that
+    `base.add(j * stride)` and a pointer bumped by `stride` once per iteration of H describe the same address."""
+    if isinstance(n, tuple) and n and n[0] == 'bin' and n[1] in ('Add', 'AddUnchecked'):
+        a, b = index_linear(n[2]), index_linear(n[3])
+        o = dict(a)
+        for k, v in b.items():
+            o[k] = o.get(k, 0) + v
+        return {k: v for k, v in o.items() if v != 0}
+    if isinstance(n, tuple) and n and n[0] == 'bin' and n[1] in ('Mul', 'MulUnchecked'):
+        for x, y in ((n[2], n[3]), (n[3], n[2])):
+            ix = loop_index(x)
+            if ix is not None and isinstance(y, tuple) and not mentions_loop_values(y):
+                H, lo = ix
+                ly = X.lin(y)
+                if set(ly) <= {''}:
+                    break            # constant multiple of the index: ordinary linear term
+                o = {}
+                for k, v in ly.items():
+                    if k == '':
+                        continue
+                    o[f'it#{H}*{k}'] = v
+                llo = X.lin(lo) if isinstance(lo, tuple) else {'': Fraction(0)}
+                if any(v != 0 for v in llo.values()):
+                    # (lo + it) * s = it*s + lo*s : keep the loop-invariant part as an ordinary product atom
+                    for k, v in X.lin(('bin', 'Mul', lo, y)).items():
+                        o[k] = o.get(k, 0) + v
+                if ly.get('', 0):
+                    for k, v in X.lin(x).items():
+                        o[k] = o.get(k, 0) + v * ly['']
+                return o
+    return X.lin(n)
 
 
 def is_elem(v, H):
